@@ -135,7 +135,7 @@ Definition clear_rderr (s : lexst) : lexst :=
 
 (* cfg_scan_fp_end: free the scratch buffer; pop the current buffer *)
 Definition scan_end (s : lexst) : lexst :=
-  {| l_sc := l_sc s; l_bufs := tl (l_bufs s); l_next := l_next s;
+  {| l_sc := INITIAL; l_bufs := tl (l_bufs s); l_next := l_next s;
      l_q := q_empty; l_inc := l_inc s; l_echo := l_echo s; l_rderr := l_rderr s |}.
 
 (* cfg_yylex_destroy: everything back to the initial state (echo is not scanner state) *)
